@@ -371,8 +371,10 @@ def g_spectrum(s, P):
             P.add('S.reorder_pops', fs, order)
         elif r < 0.85 and nd > 1:
             P.add('Misc.combine_pops', fs, [0, 1])
-        elif r < 0.9:
+        elif r < 0.86:
             P.add(s.choice(['S.S', 'S.pi', 'S.Watterson_theta', 'S.Tajima_D', 'S.log', 'S.sum', 'S.neg'] if nd == 1 else ['S.S', 'S.log', 'S.sum', 'S.neg', 'S.Fst']), fs)
+        elif r < 0.9:
+            P.add('S.file_roundtrip', s.choice([fs, P.add('S.fold', fs)]) if s.chance(0.5) else fs)
         else:
             P.add(s.choice(['ll', 'll_multinom', 'linear_Poisson_residual', 'Anscombe_Poisson_residual', 'optimal_sfs_scaling']), fs, other)
     return P
@@ -401,8 +403,13 @@ def g_numerics(s, P):
         elif r < 0.9:
             xx = _grid(s, P, s.choice([6, 8, 8, 10]))
             P.add('cached_dbeta', s.choice(NS), xx)
+        elif r < 0.93:
+            g = P.add('grid_quadratic', s.choice([20, 24])) if s.chance(0.5) else P.add('grid', s.choice([6, 8, 10]))
+            P.add('end_point_first_derivs', g)
+            P.add('estimate_best_exp_grid_crwd', [s.choice([4, 10, 20])])
         else:
             a = P.add('mk_array', s.randint(0, 3), [6, 4])
+            P.add('array_file_roundtrip', a)
             ax = s.choice([0, 1, -1])
             P.add('trapz', a, P.add('grid', 4 if ax in (1, -1) else None) if ax in (1, -1) else None, None if ax in (1, -1) else {'$arr': [0.5] * 5}, ax)
             P.add('reverse_array', a)
@@ -660,6 +667,8 @@ def g_extrap(s, P):
     fs = P.add('extrap_call', f, params, ns, pts_l)
     if s.chance(0.5):
         P.add('extrap_call', f, params, ns, pts_l)
+    if s.chance(0.3):
+        P.add('misid_call', f, params + [s.choice([0.0, 0.05])], ns, pts_l)
     _spec_tail(s, P, fs, ns)
     return P
 
